@@ -669,8 +669,18 @@ static void neighCase(Rng& r, Ctx& c)
       orc = "set-ball";
       ok  = matchesDefinition(sc.data, t, lib, t.res.sel);
       key = "C06:ball:precondition-holds:differs-from-definition";
-      if (!ok) det = fmt("target %d nmaxi=%d: the nmaxi Euclidean-nearest samples are all admissible; lib=%s def=%s ncand=%d", trank,
-                         s.nmaxi, setStr(lib).c_str(), setStr(t.res.sel).c_str(), (int)t.res.cands.size());
+      if (!ok)
+      {
+        // diagnostic only: does the weaker relation (definition on the candidate set K) explain the result?
+        std::vector<refn::Sample> d2 = sc.data;
+        for (int i = 0; i < sc.n; i++) d2[i].active = sc.data[i].active && b.inK[i];
+        refn::Result rk = refn::moving(d2, *t.tg, t.itarget, s);
+        bool onK        = matchesDefinition(d2, t, lib, rk.sel);
+        c.probe(onK ? "ball-precondition-fail:equals-definition-on-K" : "ball-precondition-fail:unexplained");
+        det = fmt("target %d nmaxi=%d %s nsect=%d: the nmaxi Euclidean-nearest samples are all admissible; lib=%s def=%s ncand=%d (lib %s the "
+                  "definition restricted to those nmaxi samples)", trank, s.nmaxi, MCN[g.mclass], s.nsect, setStr(lib).c_str(),
+                  setStr(t.res.sel).c_str(), (int)t.res.cands.size(), onK ? "equals" : "DIFFERS ALSO from");
+      }
     }
     else
     {
